@@ -270,11 +270,25 @@ def _record_write(E, t, node):
         root.attrs["_version"] = root.attrs.get("_version", 0) + 1
 
 
+def _memo(f):
+    """Memoise an element function on the identity of its index terms: storage versions are nested (each in-place write reads the
+    previous version, possibly several times), which is exponential without sharing."""
+    cache = {}
+
+    def g(idx):
+        key = tuple(i.get_id() if is_sym(i) else ("c", i) for i in idx)
+        if key not in cache:
+            cache[key] = (list(idx), f(idx))   # keep idx alive so that ast ids are not reused
+        return cache[key][1]
+
+    return g
+
+
 def write_region(E, t, cond, val, node=None):
     """Storage write: for every index i of t with cond(i): t[i] := val(i).  Views write through to their base."""
     if t.imap is None:
         old = t._elem
-        t._elem = lambda idx: z3.If(cond(idx), val(idx), old(idx))
+        t._elem = _memo(lambda idx: z3.If(cond(idx), val(idx), old(idx)))
         return
     if "slice_of" in t.attrs:
         b, dim, s, e, step = t.attrs["slice_of"]
